@@ -506,6 +506,8 @@ class _Pre:
                 self.generic_visit(n)
                 if isinstance(n.op, ast.Add):
                     return _op('add', [n.left, n.right], n)       # type-directed: str + str, else the base `+`
+                if isinstance(n.op, ast.Sub):
+                    return _op('sub', [n.left, n.right], n)       # type-directed: set - set, else the base `-`
                 return n
 
             def visit_ListComp(self, n):
@@ -555,6 +557,14 @@ class _Pre:
                         pre.note('split')
                         return _op('split', [recv, args[0]], n)
                     return n
+                if isinstance(n.func, ast.Name) and not n.keywords and n.func.id in ('set', 'frozenset', 'sorted') \
+                        and len(n.args) == 1 and pre._builtin(n.func.id) and isinstance(n.args[0], ast.Call) \
+                        and isinstance(n.args[0].func, ast.Name) and n.args[0].func.id == 'range' \
+                        and not n.args[0].keywords and 1 <= len(n.args[0].args) <= 2 and pre._builtin('range') \
+                        and not any(isinstance(a, ast.Starred) for a in n.args[0].args):
+                    pre.note('list-range')                    # the consumer exhausts the range object
+                    n.args[0] = _op('range', n.args[0].args, n.args[0])
+                    return n
                 if isinstance(n.func, ast.Name) and not n.keywords and n.func.id in ('list', 'tuple') \
                         and len(n.args) == 1 and pre._builtin(n.func.id):
                     inner = n.args[0]
@@ -580,13 +590,168 @@ class _Pre:
                 return n
         self.f = T().visit(self.f)
 
+    # -- R4: an Optional parameter given its default inside `if p is None:` -----------------------------------------
+    def _definitely_assigns(self, stmts, p):
+        for st in stmts:
+            if isinstance(st, ast.Assign) and len(st.targets) == 1 and isinstance(st.targets[0], ast.Name) \
+                    and st.targets[0].id == p:
+                return True
+            if isinstance(st, ast.If) and st.orelse and self._definitely_assigns(st.body, p) \
+                    and self._definitely_assigns(st.orelse, p):
+                return True
+        return False
+
+    def r_opt_param(self):
+        """top level `if p is None: A` (no else; `A` assigns `p` on every path; `p` a parameter the spec declares
+        `Option T`, not stored before):  ->  `if p is None: A[p := q] else: q = p`, and `q` for `p` in everything after
+        (a renaming: after the statement `p` is never None; `q` has the type `T`)"""
+        for i, st in enumerate(self.f.body):
+            if not (isinstance(st, ast.If) and not st.orelse and isinstance(st.test, ast.Compare)
+                    and len(st.test.ops) == 1 and isinstance(st.test.ops[0], ast.Is)
+                    and isinstance(st.test.left, ast.Name) and isinstance(st.test.comparators[0], ast.Constant)
+                    and st.test.comparators[0].value is None):
+                continue
+            p = st.test.left.id
+            if p not in self.spec['params'] or not self.spec['params'][p].startswith('Option ') \
+                    or not self._definitely_assigns(st.body, p):
+                continue
+            before = ast.Module(body=self.f.body[:i], type_ignores=[])
+            if any(isinstance(x, ast.Name) and x.id == p and isinstance(x.ctx, (ast.Store, ast.Del))
+                   for x in ast.walk(before)):
+                continue
+            if any(isinstance(x, (ast.FunctionDef, ast.Lambda, ast.ClassDef)) for x in ast.walk(
+                    ast.Module(body=self.f.body[i:], type_ignores=[]))):
+                continue
+            q = '_c14p_' + p
+
+            class R(ast.NodeTransformer):
+                def visit_Name(self, n):
+                    if n.id == p:
+                        return ast.copy_location(ast.Name(id=q, ctx=n.ctx), n)
+                    return n
+            st.body = [R().visit(x) for x in st.body]
+            st.orelse = [_assign(q, _name(p, st), st)]
+            self.f.body[i + 1:] = [R().visit(x) for x in self.f.body[i + 1:]]
+            self.note('opt-param')
+
+    # -- R5: `a, b = E` (E not a display) -------------------------------------------------------------------------------
+    def r_unpack(self):
+        pre = self
+
+        def rewrite_block(stmts):
+            out = []
+            for st in stmts:
+                for fld in ('body', 'orelse', 'finalbody'):
+                    if hasattr(st, fld) and isinstance(getattr(st, fld), list):
+                        setattr(st, fld, rewrite_block(getattr(st, fld)))
+                if isinstance(st, ast.Try):
+                    for h in st.handlers:
+                        h.body = rewrite_block(h.body)
+                if isinstance(st, ast.Assign) and len(st.targets) == 1 and isinstance(st.targets[0], ast.Tuple) \
+                        and len(st.targets[0].elts) == 2 and all(isinstance(e, ast.Name) for e in st.targets[0].elts) \
+                        and st.targets[0].elts[0].id != st.targets[0].elts[1].id \
+                        and not isinstance(st.value, (ast.Tuple, ast.List)):
+                    t = pre.fresh()
+                    a, b = st.targets[0].elts
+                    pre.note('unpack2')
+                    out.append(_assign(t, _op('unpack2', [st.value], st), st))
+                    for k, tgt in enumerate((a, b)):
+                        out.append(_assign(tgt.id, ast.copy_location(ast.Subscript(
+                            value=_name(t, st), slice=ast.copy_location(ast.Constant(value=k), st), ctx=ast.Load()), st), st))
+                else:
+                    out.append(st)
+            return out
+        self.f.body = rewrite_block(self.f.body)
+
+    # -- R6: calls of other translated module-level functions ---------------------------------------------------------------
+    def r_calls(self):
+        pre = self
+        callees = {sp['qualname']: sp for sp in _module_specs(self.spec) if sp is not self.spec
+                   and '.' not in sp['qualname'] and sp['qualname'] != self.spec['qualname']}
+        defs = {n.name: n for n in (self.tree.body if self.tree is not None else []) if isinstance(n, ast.FunctionDef)}
+
+        class T(ast.NodeTransformer):
+            def visit_Call(self, n):
+                self.generic_visit(n)
+                if not (isinstance(n.func, ast.Name) and n.func.id in callees and n.func.id in defs):
+                    return n
+                f = n.func.id
+                if pre._local_stores(f) or len(pre._module_binds(f)) != 1:
+                    raise Unsupported(n, 'callee %s is rebound' % f)
+                fd = defs[f]
+                a = fd.args
+                if a.vararg or a.kwarg or a.kwonlyargs or a.posonlyargs or fd.decorator_list:
+                    raise Unsupported(n, 'callee %s: signature' % f)
+                names = [x.arg for x in a.args]
+                dflt = dict(zip(names[len(names) - len(a.defaults):], a.defaults))
+                if any(isinstance(x, ast.Starred) for x in n.args) or any(k.arg is None for k in n.keywords) \
+                        or len(n.args) > len(names):
+                    raise Unsupported(n, 'call of %s with star arguments' % f)
+                got = dict(zip(names, n.args))
+                for k in n.keywords:
+                    if k.arg in got or k.arg not in names:
+                        raise Unsupported(n, 'call of %s: keyword %s' % (f, k.arg))
+                    got[k.arg] = k.value
+                # Python evaluates positional arguments, then keywords, left to right: keep that order only when it is
+                # the parameter order (else refuse: the hoisted operations would be reordered)
+                order = [names.index(x) for x in list(got)]
+                if order != sorted(order):
+                    raise Unsupported(n, 'call of %s: keywords out of parameter order' % f)
+                full = []
+                for x in names:
+                    if x in got:
+                        full.append(got[x])
+                    elif x in dflt and isinstance(dflt[x], ast.Constant):
+                        full.append(copy.deepcopy(dflt[x]))        # a constant default: evaluated once, immutable
+                    else:
+                        raise Unsupported(n, 'call of %s: argument %s missing' % (f, x))
+                pre.note('call')
+                return _op('call.' + f, full, n)
+        self.f = T().visit(self.f)
+
     def run(self):
         self.f = copy.deepcopy(self.f)
+        self.r_opt_param()
+        self.r_unpack()
         self.r_deque()
         self.r_mutation()
+        self.r_calls()
         self.r_exprs()
         ast.fix_missing_locations(self.f)
         return self.f
+
+
+def _module_specs(spec):
+    """the specs of this extension for the same module, in emission order (callee lookup)"""
+    try:
+        import srctie_specs
+    except ImportError:
+        return []
+    out = []
+    for specs in srctie_specs.SPECS.values():
+        for sp in specs:
+            if sp.get('ext') == 'py2lean_c14' and sp.get('module') == spec.get('module') and sp not in out:
+                out.append(sp)
+    return out
+
+
+def _only_sorted_uses(fdef, param):
+    """every read of `param` in the callee is the sole argument of `sorted(...)` without key: the callee's result
+    does not depend on the order (nor on duplicates' positions) of the items it is given"""
+    parents = {}
+    for n in ast.walk(fdef):
+        for c in ast.iter_child_nodes(n):
+            parents[id(c)] = n
+    uses = 0
+    for n in ast.walk(fdef):
+        if isinstance(n, ast.Name) and n.id == param:
+            if not isinstance(n.ctx, ast.Load):
+                return False
+            p = parents.get(id(n))
+            if not (_is_call_of(p, 'sorted', 1) and p.args[0] is n):
+                return False
+            uses += 1
+    return uses > 0 and not any(isinstance(n, ast.FunctionDef) and n.name == 'sorted' for n in ast.walk(fdef))
 
 
 def prepass(fdef, tree, spec, notes):
@@ -664,9 +829,56 @@ def translate_op(ex, node, expected):
         if t == INT:
             return '(PyRtC14.fmtD %s)' % atom(e), STR
         raise Unsupported(node, 'formatting a value of type %s' % (t,))
+    if name.startswith('call.'):
+        f = name[len('call.'):]
+        sp = [x for x in _module_specs(ex.fn.spec) if x['qualname'] == f]
+        if not sp or not sp[0].get('raises') or sp[0].get('kind') != 'function' or len(a) != len(sp[0]['params']):
+            raise Unsupported(node, 'call of %s: not a translated function of this module' % f)
+        sp = sp[0]
+        if ex.fn.emitted is not None and sp['lean_name'] not in ex.fn.emitted:
+            raise Unsupported(node, 'callee %s is not translated (or comes later in the file)' % f)
+        if not ex.fn.raises:
+            raise Unsupported(node, 'a raising operation outside the raising mode')
+        terms = []
+        for arg, (pn, ptxt) in zip(a, sp['params'].items()):
+            pt = py2lean.parse_type(ptxt)
+            at = _types(ex, [arg])[0]
+            if at is not None and at[0] == 'Set' and pt[0] == 'List' and at[1] == pt[1]:
+                fd = ex.fn.module_defs.get(f)
+                if fd is None or not _only_sorted_uses(fd, pn):
+                    raise Unsupported(node, 'a set passed to %s(%s=...), which does not only sort it' % (f, pn))
+                e, _ = ex.expr(arg)
+                terms.append('(PyRt.Set.toList %s)' % atom(e))
+            else:
+                e, _ = ex.expr(arg, pt)
+                terms.append(atom(e))
+        return ex.partial('%s %s' % (sp['lean_name'], ' '.join(terms)), node), py2lean.parse_type(sp['result'])
+    if name == 'sub' and len(a) == 2:
+        ts = _types(ex, a)
+        if ts[0] is not None and ts[0][0] == 'Set':
+            l, lt = ex.expr(a[0])
+            r, rt = ex.expr(a[1], lt)
+            _need([lt])
+            if lt != ('Set', INT):
+                raise Unsupported(node, 'set difference on %s' % (lt,))
+            return '(PyRtC14.setDiff %s %s)' % (atom(l), atom(r)), lt
+        n = ast.copy_location(ast.BinOp(left=a[0], op=ast.Sub(), right=a[1]), node)
+        return ex._binop(n)
+    if name == 'unpack2' and len(a) == 1:
+        e, t = ex.expr(a[0])
+        _need([t])
+        if t[0] == 'Prod' and len(t[1]) == 2:
+            return e, t
+        if t[0] != 'List':
+            raise Unsupported(node, 'unpacking %s' % (t,))
+        if not ex.fn.raises:
+            raise Unsupported(node, 'a raising operation outside the raising mode')
+        return ex.partial('PyRtC14.unpack2? %s' % atom(e), node), ('Prod', (t[1], t[1]))
     if name in ('min_list', 'max_list') and len(a) == 1:
         e, t = ex.expr(a[0])
         _need([t])
+        if t == ('Set', INT):              # order-independent: the items of the set in any order
+            e, t = '(PyRt.Set.toList %s)' % atom(e), LINT
         if t != LINT:
             raise Unsupported(node, '%s of %s' % (name[:3], t))
         if not ex.fn.raises:
@@ -810,9 +1022,37 @@ def fam_parse_int_list(rng, quick):
         yield dict(range_string=s, delim=d, range_delim=rd)
 
 
+def fam_complement_int_list(rng, quick):
+    n = 0
+    for case in fam_parse_int_list(rng, True):
+        n += 1
+        if n % (3 if quick else 1):
+            continue
+        e = rng.choice([None, None, 0, 1, 5, 12, 20, -3])
+        yield dict(range_string=case['range_string'], range_start=rng.choice([0, 0, 1, 2, 7, -2, 30]), range_end=e,
+                   delim=case['delim'], range_delim=case['range_delim'])
+    for s in ['1,3,5-8,10-11,15', '', '0', '2-4', '7,7,7']:
+        for a in (-1, 0, 1, 2, 3, 16, 20):
+            for e in (None, -1, 0, 1, 2, 13, 14, 15, 16, 20):
+                yield dict(range_string=s, range_start=a, range_end=e, delim=',', range_delim='-')
+
+
+def fam_int_ranges(rng, quick):
+    n = 0
+    for case in fam_parse_int_list(rng, True):
+        n += 1
+        if n % (2 if quick else 1) == 0:
+            yield case
+    for s in ['1,3,5-8,10-11,15', '1', '', '3-1,2', '5;7..9']:
+        yield dict(range_string=s, delim=',', range_delim='-')
+        yield dict(range_string=s, delim=';', range_delim='..')
+
+
 FAMILIES = {
     'format_int_list': fam_format_int_list,
     'parse_int_list': fam_parse_int_list,
+    'complement_int_list': fam_complement_int_list,
+    'int_ranges_from_int_list': fam_int_ranges,
 }
 
 
